@@ -73,6 +73,8 @@ type Env struct {
 	Of           int
 	Deadline     time.Time
 	tailDeadline time.Time
+	tails        int64
+	offered      int64
 
 	caseNo int64
 	beat   int64 // heartbeat (see Expired)
@@ -104,6 +106,7 @@ func (e *Env) Driver() *Driver {
 func (e *Env) Take() bool {
 	n := e.caseNo
 	e.caseNo++
+	e.offered++
 	mine := e.Of <= 1 || int(n%int64(e.Of)) == e.Shard
 	if mine && e.mark != nil && n%16 == 0 {
 		fmt.Fprintf(e.mark, "%d\n", n)
@@ -142,11 +145,16 @@ func (e *Env) ReserveTail() {
 	e.Deadline = e.Deadline.Add(-time.Until(e.Deadline) / 4)
 }
 
-// BeginTail makes the reserved time available.
+// BeginTail makes the reserved time available. It also re-synchronises the case counter
+// of the workers: a main enumeration that was cut off by the deadline stops at a
+// different case in every worker, and the sharding of the following cases by
+// "case number modulo workers" would then drop some cases and duplicate others.
 func (e *Env) BeginTail() {
 	if !e.tailDeadline.IsZero() {
 		e.Deadline = e.tailDeadline
 	}
+	e.tails++
+	e.caseNo = e.tails << 40
 }
 
 // Beat tells the watchdog that the worker is alive (long waits on subprocesses).
@@ -368,7 +376,7 @@ func runWorker(id string, args []string) int {
 	if e.drv != nil {
 		e.drv.Close()
 	}
-	e.res.Counters["cases_offered"] = e.caseNo
+	e.res.Counters["cases_offered"] = e.offered
 	for h := range e.hashes {
 		e.res.Hashes = append(e.res.Hashes, h)
 	}
